@@ -33,6 +33,11 @@ TEXT = {
         note="The 'unbounded coverage-guided fuzzing' part of the quantifier is outside the model-checking family and is not claimed. Trusts the sim for API-level validation of accepted-but-odd children.",
         technique="bounded-exhaustive grammar enumeration (single and pairwise node replacements) executed on the real code",
     ),
+    "C19": dict(
+        level="Model checking of the hook transport: the complete status x header x body x mode x cache table on the real Call, and an exhaustive schedule enumeration (all interleavings of 2-3 concurrent calls sharing a cache key, at phase granularity, under every server-content-change pattern) with the oracle 'a successful 304 uses the body cached with exactly the ETag this call sent'.",
+        note="No sockets: scripted HTTP client. Phase granularity is complete because each phase performs at most one cache operation.",
+        technique="exhaustive schedule enumeration (cooperative scheduler over the real code) + bounded-exhaustive input table",
+    ),
 }
 
 PENDING_REASON = "check not built yet in this session (planned in DESIGN.md §4); no claim is made until its check runs clean on the unchanged tree"
